@@ -604,13 +604,13 @@ theorem verify_complete (hs : Labelling) : ∀ (st : List Step) (acc : Labelling
 /-- **if any labelling passes `verifyL`, the inferred one does** -/
 theorem verifyL_inferred (st : List Step) (hs : Labelling) (hv : verifyL hs st (some H.zero) = .ok ()) :
     verifyL (inferred st) st (some H.zero) = .ok () :=
-  verifyL_complete hs st _ _ _ (inferred_sub hs st hv) (inferFix_fixpoint st) (fun c hc => hc) hv
+  verifyL_complete hs st _ _ _ (inferred_sub hs st hv) (inferFix_fixpoint st) (fun _ hc => hc) hv
 
 /-- **if any labelling passes `verify`, the inferred one does** -/
 theorem verify_inferred (st : List Step) (hs : Labelling) (hv : verify hs st (some H.zero) = .ok ()) :
     verify (inferred st) st (some H.zero) = .ok () :=
   verify_complete hs st _ _ _ (inferred_sub hs st (verifyL_of_verify' hs st _ hv)) (inferFix_fixpoint st)
-    (fun c hc => hc) hv
+    (fun _ hc => hc) hv
 
 /-! ### `verify` complains about a labelling that passes `verifyL` only for the range -/
 
